@@ -130,6 +130,63 @@ def _reply_content(ret, what):
     raise TieBroken(f"{what}: reply is not a single assistant message")
 
 
+def thread_shape(cc):
+    """the three statements of `chat_completion` that the thread theorems are about, and how often the datastore is used:
+    the thread is read from the datastore (nothing else), prepended, and written back as messages + [reply]."""
+    def calls(attr):
+        return [n for n in ast.walk(cc) if isinstance(n, ast.Call) and isinstance(n.func, ast.Attribute) and n.func.attr == attr
+                and isinstance(n.func.value, ast.Name) and n.func.value.id == "datastore"]
+
+    reads = [ast.unparse(n.value) for n in ast.walk(cc) if isinstance(n, ast.Assign) and len(n.targets) == 1
+             and isinstance(n.targets[0], ast.Name) and n.targets[0].id == "thread_messages"]
+    prepends = [ast.unparse(n.value) for n in ast.walk(cc) if isinstance(n, ast.Assign) and len(n.targets) == 1
+                and isinstance(n.targets[0], ast.Name) and n.targets[0].id == "messages" and "thread_messages" in ast.unparse(n.value)]
+    return {"reads": reads, "prepends": prepends, "n_get": len(calls("get")), "sets": [ast.unparse(c) for c in calls("set")]}
+
+
+THREAD_SHAPE = {
+    "reads": ["json.loads(await datastore.get(datastore_key) or '[]')"],
+    "prepends": ["thread_messages + messages"],
+    "n_get": 1,
+    "sets": ["datastore.set(datastore_key, json.dumps(messages + [bot_message]))"],
+}
+
+
+def process_state(tree):
+    """module-level variables (targets of top-level assignments) that the request path can touch: for each entry point the
+    names referenced in its body and, transitively, in the module-level functions it references.  The Lean model has exactly
+    the rails cache (`llm_rails_instances`) and the datastore as state; anything else a turn could remember must show up here."""
+    mod_vars, mod_funcs = set(), {}
+    for st in tree.body:
+        if isinstance(st, (ast.Assign, ast.AnnAssign, ast.AugAssign)):
+            for tg in (st.targets if isinstance(st, ast.Assign) else [st.target]):
+                for n in ast.walk(tg):
+                    if isinstance(n, ast.Name):
+                        mod_vars.add(n.id)
+        elif isinstance(st, (ast.FunctionDef, ast.AsyncFunctionDef)):
+            mod_funcs[st.name] = st
+    out = {}
+    for entry in ("chat_completion", "register_datastore"):
+        if entry not in mod_funcs:
+            raise TieBroken(f"{entry} is gone")
+        seen_f, todo, names = set(), [entry], set()
+        while todo:
+            f = todo.pop()
+            if f in seen_f:
+                continue
+            seen_f.add(f)
+            for n in ast.walk(mod_funcs[f]):
+                if isinstance(n, ast.Name):
+                    if n.id in mod_vars:
+                        names.add(n.id)
+                    elif n.id in mod_funcs:
+                        todo.append(n.id)
+                elif isinstance(n, ast.Global):
+                    names.update(n.names)
+        out[entry] = sorted(names)
+    return out
+
+
 def extract(tree=None):
     tree = tree or parse(API)
     info = {}
@@ -234,6 +291,8 @@ def extract(tree=None):
     if not isinstance(fmin, int) or not isinstance(fmax, int):
         raise TieBroken("RequestBody.thread_id: Field(min_length=…, max_length=…) is gone")
     info["field_min"], info["field_max"] = fmin, fmax
+    info["process_state"] = process_state(tree)
+    info["thread_shape"] = thread_shape(cc)
     info["fingerprints"] = {"_get_rails": fingerprint(gr), "chat_completion": fingerprint(cc), "_generate_cache_key": fingerprint(gk), "RequestBody": fingerprint(rb)}
     return info
 
